@@ -403,6 +403,20 @@ def _narrowing_sites(tree, relpath, qual):
             for a in list(n.args) + [k.value for k in n.keywords]:
                 if isinstance(a, ast.Constant) and isinstance(a.value, str) and a.value in _NARROW:
                     out.append(f"{relpath}:{n.lineno} in {qual(n.lineno)}: `{ast.unparse(n)[:100]}` narrows to {a.value!r}")
+        if isinstance(n, ast.Call):
+            # an existing value cast to the dtype of ANOTHER operand: an integer / bool / float32 operand silently truncates a float64 value
+            fname = n.func.attr if isinstance(n.func, ast.Attribute) else (n.func.id if isinstance(n.func, ast.Name) else None)
+            val = dt = None
+            if fname == "astype" and isinstance(n.func, ast.Attribute):
+                val = n.func.value
+                dt = n.args[0] if n.args else next((k.value for k in n.keywords if k.arg == "dtype"), None)
+            elif fname in ("asarray", "array", "asanyarray") and n.args:
+                val = n.args[0]
+                dt = next((k.value for k in n.keywords if k.arg == "dtype"), n.args[1] if len(n.args) > 1 else None)
+            if val is not None and isinstance(dt, ast.Attribute) and dt.attr == "dtype" and ast.unparse(dt.value) != ast.unparse(val) \
+                    and not isinstance(val, (ast.Constant, ast.List, ast.Tuple)):
+                out.append(f"{relpath}:{n.lineno} in {qual(n.lineno)}: `{ast.unparse(n)[:100]}` casts `{ast.unparse(val)[:40]}` to the dtype of another operand "
+                           f"(`{ast.unparse(dt)}`): when that operand is an integer / bool / float32 array the float64 value is silently truncated")
         if name is not None:
             out.append(f"{relpath}:{n.lineno} in {qual(n.lineno)}: `{name}` - values are narrowed below float64 "
                        "(the contracts hold to 1e-8 relative in float64; a float32 round trip loses 7 digits)")
